@@ -253,6 +253,7 @@ func (a *Analyzer) decideErrSite(s *ErrSite, k int) {
 		add(r)
 	}
 	varargArrays := map[*ssa.Alloc]bool{}
+	collectors := map[ssa.Instruction]bool{} // appends of (something derived from) e to a []error
 	for len(work) > 0 {
 		v := work[len(work)-1]
 		work = work[:len(work)-1]
@@ -313,7 +314,13 @@ func (a *Analyzer) decideErrSite(s *ErrSite, k int) {
 					}
 				}
 				if bi, ok := cc.Value.(*ssa.Builtin); ok && bi.Name() == "append" {
-					escaped = "appended to a slice"
+					if cv, ok := r.(*ssa.Call); ok && isErrorSlice(cv.Type()) {
+						// collected into a []error: the slice stands for e from here on (it must reach a return, e.g. through errors.Join)
+						add(cv)
+						collectors[r] = true
+					} else {
+						escaped = "appended to a slice"
+					}
 				}
 				if cv, ok := r.(*ssa.Call); ok {
 					if errResultIndex(cc.Signature()) >= 0 {
@@ -331,20 +338,32 @@ func (a *Analyzer) decideErrSite(s *ErrSite, k int) {
 	type drop struct{ pos, why string }
 	var drops []drop
 	handledHow := map[string]bool{}
-	seen := map[*ssa.BasicBlock]bool{}
+	type bk struct {
+		b *ssa.BasicBlock
+		c bool
+	}
+	seen := map[bk]bool{}
 	sig := s.Fn.Signature
 	errIdx := errResultIndex(sig)
-	var walk func(b *ssa.BasicBlock, from int)
-	walk = func(b *ssa.BasicBlock, from int) {
+	var walkC func(b *ssa.BasicBlock, from int, collected bool)
+	walk := func(b *ssa.BasicBlock, from int) { walkC(b, from, false) }
+	walkC = func(b *ssa.BasicBlock, from int, collected bool) {
+		walk := func(b *ssa.BasicBlock, from int) { walkC(b, from, collected) }
 		if from == 0 {
-			if seen[b] {
+			if seen[bk{b, collected}] {
 				return
 			}
-			seen[b] = true
+			seen[bk{b, collected}] = true
 		}
 		for i := from; i < len(b.Instrs); i++ {
 			in := b.Instrs[i]
+			if collectors[in] {
+				collected = true
+			}
 			if in == ssa.Instruction(call) && !(b == call.Block() && from > 0 && i < from) {
+				if collected {
+					return // e is kept in the collection; the next execution's error is an obligation of its own
+				}
 				drops = append(drops, drop{a.P.InstrPos(in), "is the same call again: the earlier error is overwritten by the next execution before anything examined it"})
 				return
 			}
@@ -487,4 +506,9 @@ func (a *Analyzer) freshNonNilError(v ssa.Value, D map[ssa.Value]bool) bool {
 		return false
 	}
 	return ok(v)
+}
+
+func isErrorSlice(t types.Type) bool {
+	sl, ok := t.Underlying().(*types.Slice)
+	return ok && core.IsErrorType(sl.Elem())
 }
